@@ -58,3 +58,39 @@ META["C08"] = {
     "note": "Trusts the harness's payload discipline (no zero bytes are ever written).",
     "technique": "runtime monitoring: zero-fill assertion on the gained range with unique non-zero payloads",
 }
+
+META["C09"] = {
+    "text": "Exploration: random Unicode names and path spellings over all insertion orders, judged by an independent validity rule, an "
+            "independent case-folding/order oracle (Perl UCD table) and the independent parser's view of the on-disk tree.",
+    "design_ref": "DESIGN.md section 2, C09",
+    "note": "Trusts order.rs (UCD 14 simple upper-casing) for the curated alphabets.",
+    "technique": "runtime monitoring: five online monitors (validation/no-write, case-insensitive lookup, findability, order, path normaliser) over seeded sibling-set histories",
+}
+META["C10"] = {
+    "text": "Exploration: every refusal class at every point of seeded histories; the instrumented backing store proves zero write events "
+            "and identical bytes for each refused call, the model proves no later observable difference.",
+    "design_ref": "DESIGN.md section 2, C10",
+    "note": "Trusts the model's refusal prediction; only calls refused with a predicted kind are judged (a wrong outcome is C01's).",
+    "technique": "runtime monitoring: write-event log + byte snapshot comparison around every refused call",
+}
+META["C15"] = {
+    "text": "Exploration: net-zero cycles (certified by the model) repeated after random prefixes; the backing store's length is the "
+            "conserved quantity.",
+    "design_ref": "DESIGN.md section 2, C15",
+    "note": "Seven cycle templates; the conclusion covers those templates x the observed prefixes.",
+    "technique": "runtime monitoring: conservation check (file length) over repeated model-certified net-zero cycles",
+}
+META["C17"] = {
+    "text": "Exploration over values x histories: independent 128-bit tick arithmetic and an independent byte-level GUID/timestamp "
+            "decoder as oracles, immediately and across reopen in both modes.",
+    "design_ref": "DESIGN.md section 2, C17",
+    "note": "Trusts the i128 oracle and refparse's field layout (MS-CFB 2.6.1).",
+    "technique": "runtime monitoring: value round-trip monitor with independent arithmetic + raw-byte decoder",
+}
+META["C18"] = {
+    "text": "Differential exploration: the same explicit history under repeat run, real file, chunked/interrupted I/O, other buffer size "
+            "and other version; byte-identical images where the property demands it.",
+    "design_ref": "DESIGN.md section 2, C18",
+    "note": "Real files live under /verif/work and are removed after each history.",
+    "technique": "runtime monitoring: differential replay across backends/configurations with a perturbing backing store",
+}
